@@ -203,7 +203,7 @@ class C01(Prop):
                     # (a rational identity), then the composition (trivial)
                     n_abs = len(eng.abs_log)
                     if n_abs:
-                        inner, outer = eng.abs_log[n_abs - 1]
+                        inner, outer = eng.abs_log[n_abs - 1][0], eng.abs_log[n_abs - 1][1]
                         eng.oblige_eq('clip-scale-uses-<V,D>-with-the-raw-gradient', inner, s_ref)
                         eng.oblige_eq('clip-scale-is-sqrt(kl/|sum|)', arg, kl / outer)
                     else:
